@@ -96,14 +96,33 @@ def diffable(ctx):
     nc = selff('norm_const')
     ic = selff('inv_cov')
     m = selff('mean')
-    sig = T.app('array', T.app('array', index_term(index_term(ic, N(0)), N(0)), index_term(index_term(ic, N(0)), N(1))),
-                T.app('array', index_term(index_term(ic, N(1)), N(0)), index_term(index_term(ic, N(1)), N(1))))
-    mrow = T.app('array', index_term(m, N(0)), index_term(m, N(1)))
+    # ([[s[0][0], s[0][1]], [s[1][0], s[1][1]]] rebuilt element by element from a [[T; 2]; 2] IS that array: the evaluator eta-reduces it)
+    sig = ic
+    mrow = m
     forms = {}
+
+    def canon_arr(t):
+        """the 2-vector mean and the 2x2 inverse covariance, however the tensor literal is spelt: the fixed-size fields themselves,
+        rebuilt element by element ([m[0], m[1]], [[s[0][0], s[0][1]], [s[1][0], s[1][1]]]), as a 1 x 2 row ([[m0, m1]]) or as a flat
+        row-major list reshaped to 2 x 2 (shape plumbing is erased)"""
+        e = lambda x, i: index_term(x, N(i))
+        rows = [T.app('array', e(e(ic, r_), 0), e(e(ic, r_), 1)) for r_ in (0, 1)]
+        table = [
+            (T.app('array', e(e(ic, 0), 0), e(e(ic, 0), 1), e(e(ic, 1), 0), e(e(ic, 1), 1)), ic),
+            (T.app('array', rows[0], rows[1]), ic), (T.app('array', e(ic, 0), e(ic, 1)), ic),
+            (T.app('array', T.app('array', e(m, 0), e(m, 1))), m), (T.app('array', e(m, 0), e(m, 1)), m), (T.app('array', m), m),
+        ]
+        cur = t
+        for _ in range(4):
+            mp = {a_: b_ for a_, b_ in table if contains(cur, a_)}
+            if not mp:
+                break
+            cur = T.subst(cur, mp)
+        return cur
     A1 = '<DiffableGaussian2D as BatchedGradientTarget>::unnorm_logp_batch'
     b1 = need(ctx, 'C15.dg.batch', A1, name='unnorm_logp_batch', trait=D + 'BatchedGradientTarget', self_head=DG)
     if b1 is not None:
-        found = erase_shapes(ctx.evaluate(b1, opts=GC).ret_term)
+        found = canon_arr(erase_shapes(ctx.evaluate(b1, opts=GC).ret_term))
         X = S('positions')
         delta = T.sub(X, mrow)
         exp = T.sub(nc, T.mul(HALF, T.app('sum_dim', T.mul(T.app('matmul', delta, sig), delta), N(1))))
@@ -112,7 +131,7 @@ def diffable(ctx):
     A2 = '<DiffableGaussian2D as GradientTarget>::unnorm_logp'
     b2 = need(ctx, 'C15.dg.single', A2, name='unnorm_logp', trait=D + 'GradientTarget', self_head=DG)
     if b2 is not None:
-        found = erase_shapes(ctx.evaluate(b2, opts=GC).ret_term)
+        found = canon_arr(erase_shapes(ctx.evaluate(b2, opts=GC).ret_term))
         X = S('position')
         delta = T.sub(X, mrow)
         exp = T.sub(nc, T.mul(HALF, T.app('sum', T.mul(T.app('matmul', delta, sig), delta))))
